@@ -2,6 +2,7 @@ package ref
 
 import (
 	"math"
+	"math/big"
 )
 
 func b2f(b bool) int {
@@ -75,28 +76,50 @@ func Poker(e []bool, m int) float64 {
 	return Igamc(float64((int(1)<<uint(m))-1)/2, v/2)
 }
 
+// sumSq returns the sum of squared counts of the n cyclic m-bit windows (m >= 1); for m <= 0 it is n^2
+// (one empty pattern occurring n times, so that psi^2_0 = 0).
+func sumSq(e []bool, m int) int64 {
+	n := len(e)
+	if m <= 0 {
+		return int64(n) * int64(n)
+	}
+	ext := append(append([]bool{}, e...), e[:m-1]...)
+	cnt := make([]int64, 1<<uint(m))
+	for i := 0; i < n; i++ {
+		cnt[pat(ext[i:i+m])]++
+	}
+	var s int64
+	for _, c := range cnt {
+		s += c * c
+	}
+	return s
+}
+
+// Psi2 = (2^m/n) sum v^2 - n.
 func Psi2(e []bool, m int) float64 {
 	if m <= 0 {
 		return 0
 	}
-	n := len(e)
-	ext := append(append([]bool{}, e...), e[:m-1]...)
-	cnt := make([]int, 1<<uint(m))
-	for i := 0; i < n; i++ {
-		cnt[pat(ext[i:i+m])]++
-	}
-	s := 0.0
-	for _, c := range cnt {
-		s += float64(c) * float64(c)
-	}
-	return float64(int(1)<<uint(m))/float64(n)*s - float64(n)
+	n := float64(len(e))
+	return float64(int64(1)<<uint(m))*float64(sumSq(e, m))/n - n
 }
 
+// Overlap: the two differences are formed exactly on the integer sums (the -n terms cancel):
+// del psi^2 = (2^m S_m - 2^(m-1) S_(m-1))/n, del^2 psi^2 = (2^m S_m - 2 2^(m-1) S_(m-1) + 2^(m-2) S_(m-2))/n.
 func Overlap(e []bool, m int) (float64, float64) {
-	a, b, c := Psi2(e, m), Psi2(e, m-1), Psi2(e, m-2)
-	d1 := a - b
-	d2 := a - 2*b + c
-	return Igamc(math.Pow(2, float64(m-2)), d1/2), Igamc(math.Pow(2, float64(m-3)), d2/2)
+	n := new(big.Rat).SetInt64(int64(len(e)))
+	term := func(k int) *big.Int {
+		if k < 0 {
+			return big.NewInt(0)
+		}
+		return new(big.Int).Mul(new(big.Int).Lsh(big.NewInt(1), uint(k)), big.NewInt(sumSq(e, k)))
+	}
+	a, b, c := term(m), term(m-1), term(m-2)
+	d1 := new(big.Int).Sub(a, b)
+	d2 := new(big.Int).Add(new(big.Int).Sub(a, new(big.Int).Lsh(b, 1)), c)
+	f1, _ := new(big.Rat).Quo(new(big.Rat).SetInt(d1), n).Float64()
+	f2, _ := new(big.Rat).Quo(new(big.Rat).SetInt(d2), n).Float64()
+	return Igamc(math.Pow(2, float64(m-2)), f1/2), Igamc(math.Pow(2, float64(m-3)), f2/2)
 }
 
 func Runs(e []bool) (float64, float64) {
